@@ -30,6 +30,7 @@ def run_behaviour(b):
     idx = {name(i): i for i in range(64)}
     pool = {}
     events = []
+    suspended = []
     for i, c in enumerate(b['calls']):
         ev = dict(c)
         ev.update({'trace': b['trace'], 'i': i})
@@ -42,6 +43,7 @@ def run_behaviour(b):
                 if b.get('shuf') is not None:
                     rng.shuffle(V)
                     rng.shuffle(E)
+                    V, E = pymc.as_container(V, rng), pymc.as_container(E, rng, pairs=True)
                 how = b.get('build', 'ctor')
                 if how == 'ctor':
                     g = pymc.DiGraph(V=V, E=E)
@@ -67,6 +69,8 @@ def run_behaviour(b):
                 elif op == 'reach':
                     X = [name(v) for v in c['X']]
                     arg = X if b.get('reach_arg', 'list') == 'list' else set(X)
+                    if b.get('shuf') is not None and rng.random() < 0.3:
+                        arg = rng.choice([tuple, frozenset])(X)
                     r = g.get_reachable_set_from(arg)
                     out = {'ret': sorted(idx[v] for v in r)}
                     if isinstance(arg, set) and arg != set(X):
@@ -81,12 +85,24 @@ def run_behaviour(b):
                     out = {'ret': sorted(idx[v] for v in g.sources())}
                 elif op == 'sccs':
                     out = {'ret': [[idx[v] for v in comp] for comp in pymc.graphmod.compute_SCCs(g)]}
+                elif op == 'sccs_some':
+                    it = pymc.graphmod.compute_SCCs(g)
+                    comps = []
+                    for _ in range(c['k']):
+                        try:
+                            comps.append([idx[v] for v in next(it)])
+                        except StopIteration:
+                            break
+                    if c.get('hold', i % 2 == 0):
+                        suspended.append(it)         # left suspended for the rest of the history
+                    del it                           # otherwise abandoned here (closed by the garbage collector)
+                    out = {'ret': comps}
                 elif op == 'rev':
                     n = g.get_reversed_graph()
                     pool[c['new']] = n
                     out = {'ret': project_graph(n, idx)}
                 elif op == 'sub':
-                    n = g.get_subgraph([name(v) for v in c['X']])
+                    n = g.get_subgraph(pymc.as_container([name(v) for v in c['X']], rng if b.get('shuf') is not None else None))
                     pool[c['new']] = n
                     out = {'ret': project_graph(n, idx)}
                 elif op == 'clone':
